@@ -1166,6 +1166,11 @@ def run_attributed(ctx, case, run_one, double_clone_key="double-clone"):
                 attributed = key
                 break
     for v in sub.violations:
+        if v["key"] == "parser-timeout" and not attributed:
+            ctx.notes.append("parser did not finish within the time bound (not attributable to a finding; harness "
+                             "timeouts are never violations): " + str({k: w for k, w in v["case"].items() if k != "suite"})[:300])
+            ctx.count("parse.timeout.unattributed")
+            continue
         key = attributed or v["key"]
         ctx.count("violation." + key)
         what = v["what"] if not attributed else f"[disappears under the minimal fix of finding `{attributed}`] " + v["what"]
@@ -1318,3 +1323,15 @@ def gen_shipped_case(rng, with_suite=True, max_workers=3):
     return {"suite": shipped_suite() if with_suite else None, "tests_str": rng.choice(tests),
             "vm_strs": {vm: rng.choice(c) for vm, c in vm_choices.items()}, "nets": list(ns),
             "mode": rng.choice(["eager", "eager", "lazy"])}
+
+
+def corpus_cases(prop):
+    """minimised past cases (one per finding), replayed first by every run: corpus/<prop>/*.json"""
+    import json
+    d = os.path.join(os.path.dirname(os.path.dirname(os.path.abspath(__file__))), "corpus", prop)
+    out = []
+    if os.path.isdir(d):
+        for f in sorted(os.listdir(d)):
+            if f.endswith(".json"):
+                out.append(load_case(json.load(open(os.path.join(d, f)))["case"]))
+    return out
